@@ -39,7 +39,10 @@ def program_nodes(cmds, order=None, argseed=0, v2=(), meta=None):
     nodes = []
     for i in order:
         c = cmds[i]
-        items = [[k, v] for k, v in c["args"].items()]
+        # canonical base order (never the dict's own order: a replay file does not preserve it)
+        decl = list(DECL.get(c["cmd"], {}).get("params", {}))
+        items = [[k, v] for k, v in sorted(c["args"].items(),
+                                           key=lambda kv: (decl.index(kv[0]) if kv[0] in decl else 99, kv[0]))]
         if argseed:
             rng.shuffle(items)
         if c["name"] in meta:
